@@ -8,3 +8,4 @@ export RUSTC_WRAPPER=$VERIF/driver/target/release/astria-facts
 export RUSTFLAGS="--cfg tokio_unstable -Zmir-opt-level=0 -Awarnings"
 export CARGO_TARGET_DIR=$VERIF/.cache/target
 export LD_LIBRARY_PATH=$(rustc +nightly --print sysroot)/lib
+export CARGO_INCREMENTAL=0
